@@ -1,5 +1,6 @@
 """C16 - network simplifications are electrical identities."""
 from __future__ import annotations
+import cmath
 import random
 from ..gen import networks as G
 from .. import netdesc, purity
@@ -261,6 +262,15 @@ def judge(case, ctx, prefix='C16'):
                 ctx.violation(f'{prefix}/{op}/invented-branch', f'{b.id!r}', {})
             elif not elm.is_active(o.element) and not elements_equal(b.element, o.element):
                 ctx.violation(f'{prefix}/{op}/passive-element-altered', f'{o!r} -> {b!r}', {})
+            elif elm.is_active(o.element) and not elm.is_active(b.element):
+                # a source with an inner impedance / admittance that was switched off survives as exactly that immittance
+                ctx.count('deactivated_sources_compared')
+                zo, zb = complex(o.element.Z), complex(b.element.Z)
+                same_z = (zo == zb) or (cmath.isfinite(zo) and cmath.isfinite(zb) and abs(zo - zb) <= 1e-12 * max(abs(zo), abs(zb)))
+                if not same_z and not (cmath.isfinite(zo) or cmath.isfinite(zb)):
+                    same_z = True                                    # both open
+                if not same_z:
+                    ctx.violation(f'{prefix}/{op}/deactivated-source-immittance-altered', f'{o!r} -> {b!r}: inner impedance {zo!r} became {zb!r}', {})
         if op == 'passive_network' and not case['keep'] and z.branches:
             # port behaviour of the stripped network = deactivated original
             zn = z.node_labels
